@@ -427,6 +427,15 @@ fn gen_key(rng: &mut Rng) -> Vec<u8> {
         let b = *rng.pick(&ALPHA);
         return vec![b; *rng.pick(&[65_536usize, 65_537, 70_000])];
     }
+    // now and then keys that agree on 7 to 17 bytes and differ behind them (in bytes on either side of 0x80)
+    if rng.chance(1, 6) {
+        let common = *rng.pick(&[7usize, 8, 9, 15, 16, 17]);
+        let mut k = vec![0x70u8; common];
+        for _ in 0..rng.range(1, 2) {
+            k.push(*rng.pick(&[0x00u8, 0x01, 0x7F, 0x80, 0xFF]));
+        }
+        return k;
+    }
     let len = match rng.below(10) {
         0 => 0,
         1..=3 => 1,
